@@ -242,7 +242,14 @@ func (g *mixGen) genBlock(h uint64) []pb.Transaction {
 					txs = append(txs, w.Transfer(harness.User(r.Intn(3)), tight.Addr, "900000000"))
 					g.note("tight-sender-funded")
 				} else {
-					txs = append(txs, w.Transfer(tight, harness.User(3).Addr, new(big.Int).Sub(bal, big.NewInt(int64(1+r.Intn(1000)))).String()))
+					to := harness.User(3).Addr
+					if r.Intn(2) == 0 {
+						// towards an account that has storage but no account record (a system contract), which an
+						// earlier transaction of the block has already loaded
+						to = harness.AddrStore
+						txs = append(txs, w.BVM(harness.User(r.Intn(3)), harness.AddrStore, "Set", pb.String(fmt.Sprintf("key%d", r.Intn(6))), pb.String(fmt.Sprintf("val%d", r.Intn(1000)))))
+					}
+					txs = append(txs, w.Transfer(tight, to, new(big.Int).Sub(bal, big.NewInt(int64(1+r.Intn(1000)))).String()))
 					g.note("transfer-amount-covered-fee-not")
 				}
 				break
